@@ -23,6 +23,9 @@ for pid in props:
             'technique': t.get('technique', 'Lean 4 theorems over a hand-written executable model + differential correspondence check against the real code'),
         })
         engines.setdefault(e['engine'], []).append(pid)
+        for xe in e.get('extra_engines', []):
+            if pid not in engines.setdefault(xe, []):
+                engines[xe].append(pid)
     else:
         na.append({'property_id': pid, 'reason': txt['not_applicable'].get(pid, 'not claimed yet: model/engine under construction (see DESIGN.md claim ladder)')})
 m = {
